@@ -64,6 +64,7 @@ static char g_viol[VS_MAXVIOL][VS_VIOLLEN];
 static int g_nviol;
 
 static int g_nth_fn = -1, g_nth_left = -1;  // fail the n-th call of one function
+static unsigned g_nth_fired;
 static int g_dry_nextfd = 1000;
 static pid_t g_dry_pid = 400000;
 
@@ -272,6 +273,8 @@ void vs_reset_light(void)
   memset(&vs_counts, 0, sizeof(vs_counts));
 }
 
+unsigned vs_nth_fired(void) { return g_nth_fired; }
+
 void vs_fail_nth(int fn, int n)
 {
   g_nth_fn = fn;
@@ -285,6 +288,7 @@ static int nth_hit(int fn)
   }
   if (g_nth_left-- == 0) {
     g_nth_fn = -1;
+    g_nth_fired++;
     return 1;
   }
   return 0;
@@ -643,7 +647,10 @@ int vs_fcntl(int fd, int cmd, ...)
   if (!probing) {
     f = fault_point(VS_FCNTL, &fidx);
   }
-  struct vs_rec *r = rec_begin(VS_FCNTL, fd, cmd, arg, fidx, probing);
+  // the child's descriptor-closing loop probes every number up to the limit:
+  // only the low ones are worth a trace record
+  static struct vs_rec unrecorded;
+  struct vs_rec *r = (probing && fd >= 128) ? &unrecorded : rec_begin(VS_FCNTL, fd, cmd, arg, fidx, probing);
 
   if (g_dry) {
     FINISH(r, 0);
@@ -897,6 +904,12 @@ int vs_poll(struct pollfd *fds, nfds_t n, int timeout)
     FINISH(r, -1);
     return -1;
   }
+  if (nth_hit(VS_POLL)) {
+    r->faulted = 1;
+    errno = EINTR;
+    FINISH(r, -1);
+    return -1;
+  }
   if (g_dry) {
     // Everything the library polls in DRY mode is the exit pipe of a fake
     // child that "has exited".
@@ -953,9 +966,9 @@ ssize_t vs_read(int fd, void *buf, size_t n)
     FINISH(r, 0);
     return 0;
   }
-  if (f && f->kind == VS_FK_ERRNO) {
+  if ((f && f->kind == VS_FK_ERRNO) || nth_hit(VS_READ)) {
     r->faulted = 1;
-    errno = f->err;
+    errno = f ? f->err : EINTR;
     FINISH(r, -1);
     return -1;
   }
@@ -978,9 +991,9 @@ ssize_t vs_write(int fd, const void *buf, size_t n)
     FINISH(r, (ssize_t) n);
     return (ssize_t) n;
   }
-  if (f && f->kind == VS_FK_ERRNO) {
+  if ((f && f->kind == VS_FK_ERRNO) || nth_hit(VS_WRITE)) {
     r->faulted = 1;
-    errno = f->err;
+    errno = f ? f->err : EINTR;
     FINISH(r, -1);
     return -1;
   }
@@ -1093,6 +1106,12 @@ pid_t vs_waitpid(pid_t pid, int *status, int options)
       }
     }
     errno = f->err;
+    FINISH(r, -1);
+    return -1;
+  }
+  if (nth_hit(VS_WAITPID)) {
+    r->faulted = 1;
+    errno = EINTR;
     FINISH(r, -1);
     return -1;
   }
